@@ -710,7 +710,7 @@ def conv_property(prop, tier, seed):
 
     root = REPO
     repo = Repo(root)
-    rep = Report(prop, tier, seed, "proof", "./check %s --tier %s" % (prop, tier))
+    rep = Report(prop, tier, seed, "other", "./check %s --tier %s" % (prop, tier))
     rep.trusted = ["shape of the parser's nodes (CommandNode / ArgumentNode / ExpressionNode fields): the postconditions of the grammar actions proved under C10",
                    "namedtuple construction, list.append and dict.get on a constant table (assumed builtin contracts)",
                    "the v2 *syntax* step (`NAME(args)` without result name -> CommandNode(None, NAME, args)) shares C10's assumed PLY engines"]
